@@ -189,7 +189,7 @@ def configs(tier):
     more += [
         (dict(levy='davie', size=(2, 2), cache_size=1), 1),
         (dict(levy='foster', size=(1, 2), cache_size=0), 0),
-        (dict(levy='space-time', size=(1,), cache_size=1, dt=0.3), 1),      # a symbolic dt hint does not finish within the task budget
+        (dict(levy='space-time', size=(1,), cache_size=1, dt=0.3), 0),      # a symbolic dt hint does not finish within the task budget
         (dict(levy='space-time', size=(1,), cache_size=3, tol=0.1, halfway=True, t1=Fraction(1, 2)), 1),
         (dict(wrapper='tree', levy='none', size=(1,), tol=0.1, t1=Fraction(1, 2)), 1),
         (dict(levy='space-time', size=(1,), cache_size=45, supply_W=True, supply_H=True, sym_ends=True), 1),
